@@ -142,6 +142,8 @@ func rulesC12(w *World, r *Report) {
 			continue
 		}
 		format, _ := constString(sp.Common().Args[0])
+		// a constant string argument (the route passed to a shared request helper) is part of the format
+		format, vaFolded := foldConstArgs(format, variadicArgs(sp.Common().Args[1]))
 		m := regexp.MustCompile(`^%s(/[a-z-]+)\?(.*)$`).FindStringSubmatch(format)
 		if m == nil {
 			r.Violate("C12.R2", d.name+":url", w.instrPos(sp), "request URL format not of the form %s/<route>?<query>: "+format)
@@ -172,7 +174,7 @@ func rulesC12(w *World, r *Report) {
 			}
 			kvs = append(kvs, kv{eq[0], eq[1]})
 		}
-		va := variadicArgs(sp.Common().Args[1])
+		va := vaFolded
 		if len(va) != len(kvs)+1 {
 			r.Violate("C12.R2", d.name+":url-args", w.instrPos(sp), fmt.Sprintf("query has %d keys but %d values are supplied", len(kvs), len(va)-1))
 			continue
@@ -469,4 +471,42 @@ func loopHeaderOf(b *ssa.BasicBlock) *ssa.BasicBlock {
 		}
 	}
 	return nil
+}
+
+// foldConstArgs substitutes constant string arguments of a Sprintf into its format (%s and %v verbs only).
+func foldConstArgs(format string, va []ssa.Value) (string, []ssa.Value) {
+	var out strings.Builder
+	var rest []ssa.Value
+	ai := 0
+	for i := 0; i < len(format); i++ {
+		if format[i] != '%' || i+1 >= len(format) {
+			out.WriteByte(format[i])
+			continue
+		}
+		if format[i+1] == '%' {
+			out.WriteString("%%")
+			i++
+			continue
+		}
+		verb := format[i+1]
+		if ai < len(va) && (verb == 's' || verb == 'v') {
+			if s, ok := constString(stripMakeInterface(va[ai])); ok && !strings.Contains(s, "%") {
+				out.WriteString(s)
+				ai++
+				i++
+				continue
+			}
+		}
+		if ai < len(va) {
+			rest = append(rest, va[ai])
+			ai++
+		}
+		out.WriteByte('%')
+		out.WriteByte(verb)
+		i++
+	}
+	for ; ai < len(va); ai++ {
+		rest = append(rest, va[ai])
+	}
+	return out.String(), rest
 }
